@@ -136,7 +136,7 @@ inductive Sk
   deriving DecidableEq, Repr, Inhabited
 
 structure PoolSkel where
-  initialize : List Sk
+  init       : List Sk
   close      : List Sk
   errorChan  : List Sk
   add        : List Sk
